@@ -8,6 +8,7 @@ CHECK = dict(
         "the backend resolves dot segments by RFC 3986 remove_dot_segments or path.Clean, on the decoded path or with only unreserved escapes decoded",
         "concurrent part: goroutine schedules are sampled, not owned; the barrier only aligns the requests at the handler entry",
         "the TLS bind is driven with HTTP/1.1 only (served like mustStartServer: Serve on a TLS listener made from the server's TLS configuration); HTTP/2 is not driven",
+        "the recording backend's answer is scripted per request (200, other final statuses, redirects 301/302/303/307/308 to targets outside/inside the API, on the backend or on another harness listener); every request any harness listener receives must be the client's own; whether a redirect reaches the client unchanged is only counted (the statement limits what reaches the backend)",
         "IPv4 peers are 127.0.0.1-127.0.0.8, the IPv6 peer is ::1 (the only loopback IPv6 address)",
         "cmd unit: builder.initWeb's two lines (webConfig.toInternal, websvc.New + Refresh) are repeated without starting the servers; requests are handed to the built http.Server.Handler of each linked-IP server (read via vpeek) with a forged RemoteAddr",
     ],
